@@ -97,7 +97,9 @@ func (c *FnVC) loopWrites(li *loopInfo) (map[string][]string, bool, bool) {
 						if st, ok := cc.Args[0].Type().Underlying().(*types.Slice); ok {
 							ks := map[string]bool{}
 							c.te.leafKinds(st.Elem(), ks)
+							rootPatForAppend = true // in-place append writes beyond len, up to cap
 							pat := rootPat(c, cc.Args[0], outside, 0)
+							rootPatForAppend = false
 							for k := range ks {
 								add(k, pat)
 							}
@@ -256,6 +258,16 @@ func rootPat(c *FnVC, x ssa.Value, outside func(ssa.Value) bool, depth int) stri
 	case *ssa.IndexAddr:
 		return rootPat(c, y.X, outside, depth+1)
 	case *ssa.Slice:
+		// x[lo:] / x[lo:hi] of a loop-invariant slice x with single-leaf elements and no
+		// explicit max: the sub-slice's length range lies within x's own elements when
+		// hi is omitted (defaults to len(x)); with an explicit hi it may reach cap(x)
+		if st, ok := y.X.Type().Underlying().(*types.Slice); ok && outside(y.X) && y.Max == nil && c.te.kindOf(st.Elem()) != "" {
+			s := c.v(y.X)
+			if y.High == nil && !rootPatForAppend {
+				return fmt.Sprintf("(inrange l %s #x0000000000000000 (s_len %s))", s, s)
+			}
+			return fmt.Sprintf("(inrange l %s #x0000000000000000 (s_cap %s))", s, s)
+		}
 		return rootPat(c, y.X, outside, depth+1)
 	}
 	return "true"
